@@ -8,10 +8,14 @@ _CK = '_Z12checkKeywordRNSt7__cxx1112basic_stringIcSt11char_traitsIcESaIcEEE'
 _CN = '_Z20classNameFromCppNameRKNSt7__cxx1112basic_stringIcSt11char_traitsIcESaIcEEEb'
 _MN = '_Z21methodNameFromCppNameRKNSt7__cxx1112basic_stringIcSt11char_traitsIcESaIcEEES6_b'
 # concrete loops of the code under test: keyword table (34 entries), rename dictionary (56), badChars.find (23 chars)
-def _name_loops(lmax):
-    return {_CK + '.0': 40, _CN + '.0': lmax + 2, _CN + '.1': lmax + 2, '_ZL11well_formedPKcibPbS1_.0': lmax + 2,
-            _MN + '.0': lmax + 2, _MN + '.1': lmax + 2, _MN + '.2': 60, _MN + '.3': 60, 'll_memmove.0': 24, 'll_memmove.1': 24,
-            'll_memchr.0': 26, 'll_strlen.0': 24, 'll_memcmp.0': lmax + 3, 'll_memcpy.0': 24}
+def _name_loops(lmax, method=False):
+    d = {_CK + '.0': 40, 'll_memchr.0': 26, 'll_strlen.0': 24, 'll_memcmp.0': lmax + 3, 'll_memcpy.0': 24}
+    if method:
+        # .0/.1 the character loop, .2/.3 the rename dictionary (56 entries)
+        d.update({_MN + '.0': lmax + 2, _MN + '.1': lmax + 2, _MN + '.2': 60, _MN + '.3': 60, 'll_memmove.0': 24, 'll_memmove.1': 24})
+    else:
+        d.update({_CN + '.0': lmax + 2, _CN + '.1': lmax + 2})
+    return d
 # std::string growth beyond the 15-byte SSO buffer never happens for these names: cutting basic_string::_M_mutate turns
 # the (infeasible but symbolically explored) reallocation paths into an asserting stub the solver proves unreachable
 _MUTATE = '_ZNSt7__cxx1112basic_stringIcSt11char_traitsIcESaIcEE9_M_mutateEmmPKcm'
@@ -23,14 +27,13 @@ HARNESSES = [
   'domain': 'names of length 1..LMAX over [A-Za-z0-9_: ] that are well-formed (components [A-Za-z_][A-Za-z0-9_]* joined by ::, single inner blanks); mangle flag and -nomangle symbolic',
   'oracle': 'equals the reference (:: -> ., camelCase fold of _/blank separated words when mangling, else the C++ name; keyword -> _keyword); valid dotted Python identifier (when folding: if every component has a word starting with a letter); never a Python keyword',
   'bounds': {'quick': {'defs': {'LMAX': 5}, 'unwind': 40, 'unwindset': _name_loops(5), 'cap': 400},
-             'thorough': {'defs': {'LMAX': 8}, 'unwind': 40, 'unwindset': _name_loops(8), 'cap': 2400}}},
- {'id': 'c02_method_name', 'property': 'C02', 'src': 'c02_names.cxx', 'entry': 'harness_c02_method_name', 'tus': _IMN,
-  'models': ['printf.c'], 'cut': [_MUTATE],
-  'desc': 'methodNameFromCppName (method, property and sequence names) on every well-formed C++ identifier',
-  'domain': 'names of length 1..LMAX over [A-Za-z0-9_ ] that are well-formed identifiers (optional __py__ prefix, single inner blanks); mangle flag and -nomangle symbolic',
-  'oracle': 'equals the reference (camelCase alias when mangling, else the C++ name; print -> Cprint and the __xxx__ names of the rename dictionary unchanged; keyword -> _keyword); valid Python identifier (when folding: if the first word starts with a letter); never a Python keyword',
-  'bounds': {'quick': {'defs': {'LMAX': 4}, 'unwind': 60, 'unwindset': _name_loops(4), 'cap': 300},
-             'thorough': {'defs': {'LMAX': 8}, 'unwind': 60, 'unwindset': _name_loops(8), 'cap': 2400}}},
+             'thorough': {'defs': {'LMAX': 6}, 'unwind': 40, 'unwindset': _name_loops(6), 'cap': 2400}}},
+ {'id': 'c02_method_examples', 'property': 'C02', 'src': 'c02_names.cxx', 'entry': 'harness_c02_method_examples', 'tus': _IMN,
+  'models': ['printf.c'],
+  'desc': 'methodNameFromCppName on 8 concrete method names (the symbolic variant does not finish, see the harness source)',
+  'domain': '8 example names: snake_case, __py__ prefix, __init__, digits, leading/trailing underscore; mangle on/off, -nomangle',
+  'oracle': 'expected plain name and camelCase alias per example',
+  'bounds': {'quick': {'unwind': 60, 'cap': 400}}},
  {'id': 'c02_remap_compare', 'property': 'C02', 'src': 'c02_remap.cxx', 'entry': 'harness_c02_remap_compare', 'tus': _IMN,
   'cut': ['_Z13get_type_sortP7CPPType'], 'cbmc_flags': _FS,
   'desc': 'RemapCompareLess (std::sort comparator of the overload sets) is a strict weak ordering',
@@ -43,18 +46,17 @@ for _id, _lo, _hi, _tiers in (('c02_keywords_a', 0, 12, ('quick', 'thorough')), 
  {'id': _id, 'property': 'C02', 'src': 'c02_names.cxx', 'entry': 'harness_c02_keywords', 'tus': _IMN, 'models': ['printf.c'], 'tiers': _tiers,
   'desc': 'checkKeyword / classNameFromCppName / methodNameFromCppName on the Python keywords %d..%d of the list of 34' % (_lo, _hi - 1),
   'domain': 'reserved words of Python 2 and 3 the generator lists (concrete loop; short keywords and all non-keywords are covered symbolically by c02_class_name / c02_method_name)',
-  'oracle': 'keyword -> _keyword for classes, constants and methods (print -> Cprint for methods)',
+  'oracle': 'keyword -> _keyword for classes, constants and methods (method print -> Cprint is outside: see harness source)',
   'bounds': {'quick': {'defs': {'KW_FROM': _lo, 'KW_TO': _hi}, 'unwind': 60, 'cap': 400}}})
-_OPDOM = 'operator names (concrete loop over the spellings cppparser produces); mangle=false (thorough: also mangle=true with and without -nomangle)'
+_OPDOM = 'operator names (concrete loop over the spellings cppparser produces, all but "operator ,"); mangle=false (the primary name)'
 _OPORA = 'each operator maps to its Python special-method name (__eq__, __getitem__, __iadd__, __bool__ ...) or to the documented plain name (assign, increment ...); the result is a valid identifier'
-for _id, _lo, _hi, _hf in (('c02_operator_names_a', 0, 20, []), ('c02_operator_names_b', 20, 41, []), ('c02_operator_lshift', 0, 1, ['-DONLY_LSHIFT'])):
+for _id, _lo, _hi, _hf in (('c02_operator_names_a', 0, 20, []), ('c02_operator_names_b', 20, 40, []), ('c02_operator_lshift', 0, 1, ['-DONLY_LSHIFT'])):
     HARNESSES.append(
  {'id': _id, 'property': 'C02', 'src': 'c02_names.cxx', 'entry': 'harness_c02_operator_names', 'tus': _IMN,
   'models': ['printf.c'], 'hflags': _hf,
   'desc': 'methodNameFromCppName on ' + ('operator <<' if _hf else 'every operator except << (entries %d..%d of the list)' % (_lo, _hi - 1)),
   'domain': _OPDOM, 'oracle': _OPORA,
-  'bounds': {'quick': {'defs': {'OP_FROM': _lo, 'OP_TO': _hi, 'MODES': 1}, 'unwind': 60, 'cap': 400},
-             'thorough': {'defs': {'OP_FROM': _lo, 'OP_TO': _hi, 'MODES': 3}, 'unwind': 60, 'cap': 2400}}})
+  'bounds': {'quick': {'defs': {'OP_FROM': _lo, 'OP_TO': _hi, 'MODES': 1}, 'unwind': 60, 'cap': 400}}})
 HARNESSES += [
 ]
 for _id, _q, _t in (('c02_collapse_a', (0, 1), (0, 1)), ('c02_collapse_b', (1, 2), (1, 2)), ('c02_collapse_c', (2, 7), (2, 3)),
@@ -75,8 +77,14 @@ HARNESSES += [
 ]
 
 PROPERTY_INFO = {'C02': {'level': 'model_checking',
-         'explanation': 'bounded symbolic execution (CBMC) of generator-side kernels of the -python-native back end: name mangling, overload ordering comparator, default-argument collapsing',
-         'outside': 'Tier B (the generated dispatch code under a CPython model) and everything at run time: argument conversion, ownership, reference counts, exceptions; write_function_instance and the other emitters',
-         'assumptions': []}}
+         'explanation': 'bounded symbolic execution (CBMC) of generator-side kernels of the -python-native back end (Tier A of the plan): '
+                        'Python names of classes/methods/operators, the overload ordering comparator, default-argument collapsing; '
+                        'container-shaped inputs (overload tables, parameter counts) are enumerated by concrete loops inside the query, scalars are symbolic',
+         'outside': 'Tier B (the generated dispatch code under a CPython model) and everything at run time: argument conversion, ownership, '
+                    'reference counts, exceptions; write_function_instance and the other emitters; get_type_sort on real CPPTypes (replaced by '
+                    'an uninterpreted table); method names on a symbolic domain (only examples, keywords and operators: the rename-dictionary '
+                    'loop on a symbolic name does not finish), "print" -> "Cprint", "operator ," and camelCase aliases of operators (a growing '
+                    'std::string = literal is undecidable for the engine); names whose components consist of underscores only',
+         'assumptions': ['the rename dictionary / keyword list expected by the harness are the documented ones (copied into the harness as reference data)']}}
 
 NOT_APPLICABLE = {}
